@@ -243,6 +243,17 @@ def gen_op(rng: random.Random, kind: str, n: int):
             if hi > lo:
                 G = g.normal(size=(hi - lo, hi - lo)) + 1j * g.normal(size=(hi - lo, hi - lo))
                 H[lo:hi, lo:hi] = (G + G.conj().T) / 2
+    elif kind == "weak":                 # two blocks coupled by eps: ||w|| ~ eps when the first block is exhausted
+        b = rng.randint(1, min(4, n - 1))
+        H = np.zeros((n, n), dtype=complex)
+        for lo, hi in ((0, b), (b, n)):
+            G = g.normal(size=(hi - lo, hi - lo)) + 1j * g.normal(size=(hi - lo, hi - lo))
+            H[lo:hi, lo:hi] = (G + G.conj().T) / 2
+        C = (g.normal(size=(b, n - b)) + 1j * g.normal(size=(b, n - b))) * 10.0 ** (-rng.randint(3, 7))
+        H[:b, b:] = C
+        H[b:, :b] = C.conj().T
+        nrm = np.linalg.norm(H, 2)
+        return -1j * H / nrm * rng.choice([1.0, 2.0, 4.0]) * rng.uniform(0.5, 1.0)
     else:
         raise ValueError(kind)
     nrm = np.linalg.norm(H, 2)
@@ -292,6 +303,32 @@ def frechet_dense(A, E):
     M[n:, n:] = A
     M[:n, n:] = E
     return sla.expm(M)[:n, n:]
+
+
+def boundary_case(case_seed: int):
+    """weakly coupled blocks, start vectors in the first block, and a tolerance placed by a probe run right next to the
+    residual norm ||w|| of the iteration that exhausts the block (factor 0.3 … 3): the `n2 < tolerance` decision is hit on
+    both sides and close to equality, while the error estimates of the earlier iterations are far above the tolerance"""
+    np, torch = _np()
+    rng = random.Random(case_seed)
+    n = rng.randint(3, 10)
+    A = gen_op(rng, "weak", n)
+    b = 1
+    while b < n and np.abs(A[:b, b:]).max() > 1e-2 * np.abs(A).max():
+        b += 1
+    s = gen_vec(rng, n)
+    s[b:] = 0
+    g = gen_vec(rng, n)
+    if rng.random() < 0.5:
+        g[b:] = 0
+    At = torch.tensor(A)
+    probe = record(lambda x: At @ x, torch.tensor(s), torch.tensor(g), 1e-15)
+    tol = 1e-9
+    p = probe.runs[0].parse() if probe.runs else None
+    if p is not None and p["n2s"]:
+        small = min(x for x in p["n2s"] if x > 1e-12) if any(x > 1e-12 for x in p["n2s"]) else 1e-9
+        tol = small * rng.choice([0.3, 0.7, 0.95, 1.05, 1.5, 3.0])
+    return dict(kind="weak", n=n, A=A, s=s, g=g, tol=tol, vec="block", case_seed=case_seed)
 
 
 # ------------------------------------------------------------------------------------------------ tape correspondence
@@ -383,7 +420,8 @@ def correspondence_tape(rep: Report, drv: Driver, seed: int, count: int) -> None
     lines, expect, meta = [], [], []
     for i in range(count):
         case_seed = seed * 1000003 + 7 * i + 1
-        c = gen_case(case_seed, small=(i % 3 == 0))
+        boundary = i % 5 == 2
+        c = boundary_case(case_seed) if boundary else gen_case(case_seed, small=(i % 3 == 0))
         rng = random.Random(case_seed ^ 0x5EED)
         maxdim = dkm.max_krylov_dim
         if i % 9 == 4:                     # exhaust the loop: RecursionError (in the first or in the second run)
@@ -391,7 +429,8 @@ def correspondence_tape(rep: Report, drv: Driver, seed: int, count: int) -> None
         A = torch.tensor(c["A"])
         st, gr = torch.tensor(c["s"]), torch.tensor(c["g"])
         rec = record(lambda x: A @ x, st, gr, c["tol"], maxdim if maxdim != dkm.max_krylov_dim else None)
-        info = dict(kind="dk-tape", family=c["kind"], n=c["n"], tol=c["tol"], maxdim=maxdim, case_seed=case_seed, small=(i % 3 == 0))
+        info = dict(kind="dk-tape", family=c["kind"], n=c["n"], tol=c["tol"], maxdim=maxdim, case_seed=case_seed, small=(i % 3 == 0),
+                    boundary=boundary)
         rep.case(key=("dk-tape", case_seed), nontrivial=True, sample=dict(info) if i < 2 else None)
         if rec.raised not in (None, "recursion"):
             rep.fail(f"double_krylov raised {rec.raised}", info)
@@ -772,7 +811,7 @@ def replay_one(d: dict) -> int | None:
         return int(ex > 0)
     if k == "dk-tape":
         np, torch = _np()
-        c = gen_case(d["case_seed"], small=d.get("small", False))
+        c = boundary_case(d["case_seed"]) if d.get("boundary") else gen_case(d["case_seed"], small=d.get("small", False))
         A = torch.tensor(c["A"])
         rec = record(lambda x: A @ x, torch.tensor(c["s"]), torch.tensor(c["g"]), c["tol"])
         print(f"replay: double_krylov on case_seed={d['case_seed']}:", rec.raised or "returned", "FAILS" if rec.raised not in (None, "recursion") else "holds now")
